@@ -772,8 +772,8 @@ def run(ck: Check) -> None:
     campaign_sort(ck, 500 if quick else 5000, 3 if quick else 4)
     campaign_bubble(ck, 4 if quick else 5)
     campaign_sort_models(ck, 600 if quick else 6000)
-    campaign_e2e(ck, 240 if quick else 2500)
-    campaign_e2e_modular(ck, 80 if quick else 600)
+    campaign_e2e(ck, 240 if quick else 2000)
+    campaign_e2e_modular(ck, 80 if quick else 400)
     ck.search_hooks.append(search_e2e)
     known_findings(ck)
 
